@@ -11,6 +11,7 @@
 #include <limits>
 #include <unistd.h>
 #include <cstdint>
+#include <filesystem>
 #define private public
 #define protected public
 #include <mesh.h>
@@ -50,6 +51,7 @@ static Mesh* mkmesh(size_t flags, const MeshIn& mi) {
     m->reference_vertices(indmap);
     for (const auto& t : mi.ts) m->add_triangle(t,indmap);
     if (flags&1) m->update(true);
+    else if (flags&2) { }   // programmatic mesh saved before any update: Vertex::index() still unset
     else { m->make_adjacencies(); m->generate_indices(); m->update(false); }
     return m;
 }
@@ -174,6 +176,42 @@ static Wire c15(Reader& r) {
         catch (std::exception&) { unlink(f1.c_str()); unlink(f2.c_str()); return Wire{32}; }
         unlink(f1.c_str()); unlink(f2.c_str());
         o.push_back(0); dump(o,fresh); o.push_back(0); dump(o,used);
+        return o;
+    }
+    case 8: {
+        size_t flags=r.n(), n=r.n(); std::string name; for (size_t k=0;k<n;++k) name += (char)r.n();
+        MeshIn mi=getMeshIn(r); skipTable(r);
+        Mesh* m;
+        try { m = mkmesh(flags,mi); } catch (std::exception&) { return Wire{30}; }
+        o.push_back(0); dump(o,*m);
+        const std::string f = "fn_" + std::to_string((size_t)getpid()) + "/" + name;
+        std::error_code ec; std::filesystem::create_directories(std::filesystem::path(f).parent_path(),ec);
+        try { m->save(f); } catch (std::exception&) { std::filesystem::remove_all("fn_"+std::to_string((size_t)getpid()),ec); o.push_back(31); return o; }
+        Mesh m2;
+        try { m2.load(f,false); } catch (std::exception&) { std::filesystem::remove_all("fn_"+std::to_string((size_t)getpid()),ec); o.push_back(32); return o; }
+        std::filesystem::remove_all("fn_"+std::to_string((size_t)getpid()),ec);
+        o.push_back(0); dump(o,m2);
+        return o;
+    }
+    case 9: {
+        // every mesh of a geometry loaded from g_<id>/model.geom [+ model.cond]: dump, save in fmt, reload into a fresh Mesh, dump
+        size_t fmt=r.n(), id=r.n(), cond=r.n(), oldord=r.n();
+        if (fmt>3) throw Reader::Malformed();
+        const std::string dir = "g_" + std::to_string(id) + "/";
+        Geometry* g;
+        try { g = cond ? new Geometry(dir+"model.geom",dir+"model.cond",oldord!=0) : new Geometry(dir+"model.geom",oldord!=0); }
+        catch (std::exception&) { return Wire{30}; }
+        o.push_back(0); o.push_back((ll)g->meshes().size());
+        size_t k = 0;
+        for (const auto& m : g->meshes()) {
+            dump(o,m);
+            const std::string f = dir + "out_" + std::to_string(k++) + "." + EXT[fmt];
+            try { m.save(f); } catch (std::exception&) { unlink(f.c_str()); o.push_back(31); continue; }
+            Mesh m2;
+            try { m2.load(f,false); } catch (std::exception&) { unlink(f.c_str()); o.push_back(32); continue; }
+            unlink(f.c_str());
+            o.push_back(0); dump(o,m2);
+        }
         return o;
     }
     default: throw Reader::Malformed();
